@@ -31,7 +31,9 @@ def scenarios(quick):
               (T.hidden(maxseq=1), 'SpecPrompt', 6 if quick else 60, 150, {}),
               (T.prefix_topics(maxseq=1), 'SpecPrompt', 6 if quick else 60, 200, {}),
               (T.remap_main(maxseq=1), 'SpecPrompt', 4 if quick else 40, 200, {}),
-              (T.join_late(maxseq=3), 'SpecPrompt', 6 if quick else 80, 300, dict(max_faults=1, fault_kinds=['stall'], victims=['K']))],
+              (T.join_late(maxseq=3), 'SpecPrompt', 6 if quick else 80, 300, dict(max_faults=1, fault_kinds=['stall'], victims=['K'])),
+              # blocking applications (timeout = None) with kills and lost messages
+              (T.blocking(T.chain3(maxseq=2, conn_ticks=3)), 'SpecPrompt', 6 if quick else 100, 200, dict(max_faults=2, fault_kinds=['kill', 'drop'], victims=['S', 'A', 'K']))],
         rand=[(T.chain3(maxseq=4, conn_ticks=3), 10 if quick else 200, 800, 0.08, 0.03, True),
               (T.tee_rejoin2(maxseq=4, conn_ticks=3, skip=()), 8 if quick else 150, 800, 0.05, 0.0, True),
               (T.hidden(maxseq=3), 6 if quick else 100, 500, 0.1, 0.05, False),
